@@ -13,6 +13,25 @@ GUARD_NAMES = ['g_ssubst_exists_capture', 'g_esubst_mu_capture', 'g_ssubst_mu_ca
 SOUND_BITS = '1111111110'
 
 
+def regen_gen():
+    """regenerate coq/Gen/{Opcodes,Judge,SubstFns}.v from the CURRENT sources (fail closed)"""
+    import sys
+    sys.path.insert(0, os.path.join(C.VERIF, 'translators'))
+    import opcodes
+    import rust_judge
+    import rust_subst
+    errs = []
+    for mod, fn in ((opcodes, 'Opcodes.v'), (rust_judge, 'Judge.v'), (rust_subst, 'SubstFns.v')):
+        try:
+            text = mod.generate(C.REPO)
+            C.write_if_changed(os.path.join(C.COQ, 'Gen', fn), text)
+        except SystemExit as e:
+            errs.append(str(e))
+        except Exception as e:  # noqa: BLE001
+            errs.append(f'{mod.__name__}: {e!r}')
+    return (not errs), '; '.join(errs)
+
+
 def build_model():
     return C.build_mlref('ml', 'Extract/ExtractML.v', 'ml_model', 'ml_driver.ml', 'mlref_ml',
                          ['ML/Syntax.vo', 'ML/Subst.vo', 'ML/Machine.vo', 'Doc/Machine.vo'])
